@@ -1,6 +1,7 @@
 import TcheranVerif.Proofs.PickerMain
 import TcheranVerif.Proofs.GenerateNodup
 import TcheranVerif.Model.Search
+import TcheranVerif.Proofs.LoudComplete
 /-!
 # C10 — the staged move picker yields every generated move exactly once
 
@@ -132,6 +133,29 @@ theorem picker_stream_legal (T : SliderTables) (g : Game) (k : Sq) (h : PosH g k
     exact List.mem_append.1 ((h3 m).2 (hh m hm))
   · exact List.nodup_append.2 ⟨hE.capsNodup, hE.quietsNodup, fun a ha b hb e => hE.disjoint a ha (e ▸ hb)⟩
 
+/-- **C10, captures-only variant over the composed models**: in every position the stream of the captures-only
+picker is duplicate-free, consists of legal moves, and contains **every legal capture** (en passant and capturing
+promotions included) **and every queen promotion** -/
+theorem loud_stream_complete (T : SliderTables) (g : Game) (k : Sq) (h : PosH g k) (nm : Search.NodeMoves)
+    (hnm : Search.nodeMoves g = some nm) (c : Search.Ctx) (plies : Nat)
+    (fuel : Nat) (hf : 10 * bound (Search.pickerEnv g nm c plies) < fuel) :
+    (drain (Search.pickerEnv g nm c plies) fuel Picker.newLoud).Nodup ∧
+    (∀ m ∈ drain (Search.pickerEnv g nm c plies) fuel Picker.newLoud, m ∈ Rules.legalMoves (Rules.ofGame g)) ∧
+    (∀ m ∈ Rules.legalMoves (Rules.ofGame g), (m.isCapture = true ∨ m.flag = .promoQ) →
+      m ∈ drain (Search.pickerEnv g nm c plies) fuel Picker.newLoud) := by
+  have hE := envOk_of_generate T g k h nm hnm c plies
+  have hp := loud_perm _ hE fuel hf
+  obtain ⟨caps, cache, quiets, h1, h2, hall, hleg⟩ := Tcheran.loud_complete T g k h
+  have e : nm = ⟨caps, quiets⟩ := by
+    unfold Search.nodeMoves at hnm
+    rw [h1] at hnm
+    change (do let quiets ← generateQuiets g cache; pure (⟨caps, quiets⟩ : Search.NodeMoves)) = some nm at hnm
+    rw [h2] at hnm
+    exact (Option.some.inj hnm).symm
+  subst e
+  refine ⟨hp.nodup_iff.2 hE.capsNodup, fun m hm => hleg m (hp.mem_iff.1 hm), fun m hm hl => ?_⟩
+  exact hp.mem_iff.2 (hall m hm hl)
+
 /-- the stream does not depend on the fuel once it exceeds the measure -/
 theorem drain_stable (env : Env) (hE : EnvOk env) : ∀ (f1 f2 : Nat) (st : State), Inv env st →
     mu env st < f1 → mu env st < f2 → drain env f1 st = drain env f2 st := by
@@ -189,3 +213,4 @@ end Tcheran.Props.C10
 #print axioms Tcheran.Props.C10.loud_perm
 #print axioms Tcheran.Props.C10.drain_stable
 #print axioms Tcheran.Props.C10.next_after_done
+#print axioms Tcheran.Props.C10.loud_stream_complete
